@@ -5,7 +5,7 @@ Real functions executed symbolically: defaults_utils.{extract_default,set_defaul
 pure_utils.{location_within,quote,unquote,count_iter_items}, emitter_utils.interpolate_defaults.
 """
 from lib import prelude  # noqa: F401
-from lib.ob import Ob
+from lib.ob import Ob, ZOb
 from lib.domain import fixlen
 
 from doctrans.defaults_utils import extract_default, set_default_doc
@@ -329,4 +329,11 @@ def obligations(tier, seed):
             kf=[("KF-C17-hasdefaults", "'efaults' in H.WORDS[w]")],
         )
     )
+    from lib import pyladder
+
+    obs.append(ZOb(name="ladder_lemma_unbounded", run=lambda: pyladder.run_lemma(extract_default),
+                   replay=lambda cex: pyladder.replay(extract_default, cex),
+                   bounds="direct z3 query over strings of ANY length: the coercion ladder of extract_default translated from its current AST; "
+                   "languages str(int) = -?(0|[1-9][0-9]*), repr(float), True|False; ASCII",
+                   funcs=["doctrans.defaults_utils.extract_default (coercion ladder, AST -> z3)"]))
     return obs
